@@ -240,6 +240,29 @@ Check scan_replaces_by_a_newer_generation : forall version sector r,
     rs_count st' = rs_count st4 /\ rs_last_end st' = sector + need_of version r.
 Print Assumptions scan_replaces_by_a_newer_generation.
 
+(* per-block retirement markers: a completed run written for (sector, n) -- n blocks counting down,
+   each with its sector-bound token -- is stepped over as a whole and is not retired again;
+   free (zero) blocks are stepped over one at a time; neither touches the index *)
+Theorem scan_skips_a_complete_marker_run : forall c version total sector n st jl rest',
+  c_ro c = false -> has_token version = true ->
+  0 < n -> sector + n <= total -> total <= U64MAX ->
+  scan_step c version total sector (marker_run sector n (N.to_nat n) ++ rest') st jl = Ok (Advance (sector + n) st jl).
+Proof. exact scan_step_skips_a_complete_marker_run. Qed.
+Check scan_skips_a_complete_marker_run : forall c version total sector n st jl rest',
+  c_ro c = false -> has_token version = true ->
+  0 < n -> sector + n <= total -> total <= U64MAX ->
+  scan_step c version total sector (marker_run sector n (N.to_nat n) ++ rest') st jl = Ok (Advance (sector + n) st jl).
+Print Assumptions scan_skips_a_complete_marker_run.
+
+Theorem scan_skips_a_zero_block : forall c version total sector st jl rest',
+  c_ro c = false ->
+  scan_step c version total sector (zeros BLOCK :: rest') st jl = Ok (Advance (sector + 1) st jl).
+Proof. exact scan_step_skips_a_zero_block. Qed.
+Check scan_skips_a_zero_block : forall c version total sector st jl rest',
+  c_ro c = false ->
+  scan_step c version total sector (zeros BLOCK :: rest') st jl = Ok (Advance (sector + 1) st jl).
+Print Assumptions scan_skips_a_zero_block.
+
 (* hence a data area packed with the encoded extents of records with pairwise distinct keys is
    scanned to exactly those records: the scan ends without error, and every record laid out is in
    the index with its timestamp, expiry and value length *)
